@@ -123,7 +123,7 @@ func vAccepts(tagp string, img []byte) {
 	vAssert(tagp+"inspect-accepts", err == nil)
 }
 
-// VerifH_C05_StorageSession: open, up to two puts, Finalize; the file is exactly the documented
+// VerifH_C05_StorageSession: open, up to two (thorough: three) puts, Finalize; the file is exactly the documented
 // layout for every padding / codec / identity / version configuration, and Inspect(true) accepts it.
 func VerifH_C05_StorageSession() {
 	o := vSessOptions()
@@ -131,10 +131,14 @@ func VerifH_C05_StorageSession() {
 	f := newVFile()
 	sc, err := NewReadableWritable(f, roots, o.list()...)
 	vAssert("open", err == nil)
-	n := vChoose("puts", 3)
+	np, md := 3, 1
+	if vTier() == 1 {
+		np, md = 4, 2 // up to three puts, data 0..2 bytes
+	}
+	n := vChoose("puts", np)
 	var puts []vEntry
 	for i := 0; i < n; i++ {
-		b := vValidBlockT("blk", 1)
+		b := vValidBlockT("blk", md)
 		puts = append(puts, b)
 		vAssert("put-ok", sc.Put(context.Background(), b.c.KeyString(), b.data) == nil)
 	}
